@@ -1139,6 +1139,17 @@ func (e *Evaluator) GetRootJson() (string, error) {
 }
 
 func EvalExpression(exprSrc string, rootValue interface{}, stdout io.Writer) (*Cell, error) {
+	cell, err := evalSelector(exprSrc, rootValue, stdout)
+	if err == errExit {
+		// exit inside the expression: there is no value, and never a nil cell
+		return NewCell(NewValue(nil)), nil
+	}
+	return cell, err
+}
+
+// evalSelector evaluates a root selector. It returns errExit when the
+// expression executed exit; EvalProgram ends the run successfully then.
+func evalSelector(exprSrc string, rootValue interface{}, stdout io.Writer) (*Cell, error) {
 	lex := NewLexer(exprSrc)
 	parser := NewParser(&lex)
 	expr, err := parser.ParseExpression()
@@ -1150,7 +1161,11 @@ func EvalExpression(exprSrc string, rootValue interface{}, stdout io.Writer) (*C
 	ev.root = rootCell
 	ev.ruleRoot = rootCell
 	cell, err := ev.evalExpr(expr)
-	if err != nil && err != errExit {
+	if err == errNext {
+		// there is no rule to leave inside a selector
+		return nil, ev.error(expr.Token(), "next cannot be used in a root selector")
+	}
+	if err != nil {
 		return nil, err
 	}
 	return cell, nil
@@ -1204,7 +1219,10 @@ func EvalProgram(progSrc string, files []InputFile, rootSelectors []string, stdo
 			rootCells := make([]*Cell, 0)
 			if len(rootSelectors) > 0 {
 				for _, rootSelector := range rootSelectors {
-					cell, err := EvalExpression(rootSelector, rootValue, stdout)
+					cell, err := evalSelector(rootSelector, rootValue, stdout)
+					if err == errExit {
+						return &ev, nil
+					}
 					if err != nil {
 						return &ev, err
 					}
